@@ -98,6 +98,65 @@ fn check_values(ctx: &Ctx, conv: &Conv, a: &Arr3, case: &Value) -> Option<Vec<f6
     Some(taus)
 }
 
+/// The `ess_from_chainstats` entry point: the same ESS formula, with W and var+ taken from per-chain statistics
+/// (unbiased per-chain variances, as `ChainTracker::stats` reports them) instead of being recomputed from the array.
+/// Reference: `ess_ref_with` on the unsplit chains with W / var+ derived in f64 from the very f32 statistics handed in.
+fn check_chainstats(ctx: &Ctx, a: &Arr3, case: &Value) {
+    let (m, n, p) = arr3_dims(a);
+    if m < 2 || n < 4 {
+        return;
+    }
+    ctx.evals(1);
+    ctx.transitions(1);
+    let chains_of = |k: usize| -> Vec<Vec<f64>> { a.iter().map(|ch| ch.iter().map(|r| r[k] as f64).collect()).collect() };
+    let mut means = vec![vec![0f32; p]; m];
+    let mut sm2s = vec![vec![0f32; p]; m];
+    for k in 0..p {
+        for (c, ch) in chains_of(k).iter().enumerate() {
+            let mu = ch.iter().sum::<f64>() / n as f64;
+            means[c][k] = mu as f32;
+            sm2s[c][k] = (ch.iter().map(|x| (x - mu) * (x - mu)).sum::<f64>() / (n as f64 - 1.0)) as f32;
+        }
+    }
+    let stats: Vec<mini_mcmc::stats::ChainStats> = (0..m)
+        .map(|c| mini_mcmc::stats::ChainStats { n: n as u64, p_accept: 0.5, mean: ndarray::Array1::from_vec(means[c].clone()), sm2: ndarray::Array1::from_vec(sm2s[c].clone()) })
+        .collect();
+    let refs: Vec<&mini_mcmc::stats::ChainStats> = stats.iter().collect();
+    let arr = ndarray::Array3::from_shape_fn((m, n, p), |(c, t, k)| a[c][t][k]);
+    let es = match catch(|| mini_mcmc::stats::ess_from_chainstats(arr.view(), &refs).to_vec()) {
+        Ok(x) => x,
+        Err(msg) => {
+            ctx.violation(Violation::new("C12:panic(chainstats)", format!("ess_from_chainstats panicked: {msg}"), case.clone()));
+            return;
+        }
+    };
+    for k in 0..p {
+        let chains = chains_of(k);
+        let w = (0..m).map(|c| sm2s[c][k] as f64).sum::<f64>() / m as f64;
+        let gm = (0..m).map(|c| means[c][k] as f64).sum::<f64>() / m as f64;
+        let between = (0..m).map(|c| (means[c][k] as f64 - gm).powi(2)).sum::<f64>() / (m as f64 - 1.0);
+        let varplus = between + w * (n as f64 - 1.0) / n as f64;
+        if !(w > 0.0) || !varplus.is_finite() {
+            ctx.outcome("chainstats:degenerate(W=0)", 1);
+            continue;
+        }
+        let cond = (0..m).map(|c| (means[c][k] as f64).abs()).fold(0.0, f64::max) / w.sqrt();
+        let r = ess_ref_with(&chains, w, varplus, 1.0, MARGIN);
+        let mn = (m * n) as f64;
+        let got_ess = es[k] as f64;
+        let got_tau = tau_of(got_ess, mn);
+        let ok = r.cands.iter().any(|(tau, slack)| (got_tau - tau).abs() <= tau_tol(*tau, *slack, cond));
+        ctx.outcome(if ok { "chainstats:value-match" } else { "chainstats:value-mismatch" }, 1);
+        if !ok {
+            ctx.violation(Violation::new(
+                "C12:ess-value(chainstats)",
+                format!("ess_from_chainstats, parameter {k}: implementation {got_ess} (tau {got_tau}), reference tau candidates {:?} (M*N={mn}, W={w}, var+={varplus})", r.cands),
+                case.clone(),
+            ));
+        }
+    }
+}
+
 fn close_tau(a: f64, b: f64, tol: f64) -> bool {
     if a.is_nan() && b.is_nan() {
         return true;
@@ -211,7 +270,7 @@ fn bands(ctx: &Ctx) {
 
 pub fn run(ctx: &Ctx) {
     let conv = Conv { fails: [AtomicU64::new(0), AtomicU64::new(0)], firsts: Mutex::new([vec![], vec![]]), worst: Mutex::new(0.0) };
-    ctx.rule("(i) ALL arrays over {-1,0,1,2} for the listed small shapes; (ii) fixed structured families (iid, AR(1) phi in {-0.9,-0.5,0.5,0.9,0.99}, trend, bimodal, switching, far, constant parameter) over the listed shapes, half-lengths on both sides of the 100-row switch and several FFT paddings; (iii) metamorphic variants (affine, permutations, time reversal; every member <= 600 draws again in 4 other memory layouts: Fortran order, two axis-permuted views, reversed strided view) on members whose Geyer cut is not inside the margin; (iv) sanity bands on fixed iid / AR(1) members. Compared quantity: tau = M*N/ESS against the f64 reference (direct O(n^2) autocovariance), set-valued where a pair sum is within 2e-5 of the cut. non-trivial = W>0; states = distinct inputs; transitions = implementation evaluations");
+    ctx.rule("(i) ALL arrays over {-1,0,1,2} for the listed small shapes; (ii) fixed structured families (iid, AR(1) phi in {-0.9,-0.5,0.5,0.9,0.99}, trend, bimodal, switching, far, constant parameter) over the listed shapes, half-lengths on both sides of the 100-row switch and several FFT paddings; (iii) metamorphic variants (affine, permutations, time reversal; every member <= 600 draws again in 4 other memory layouts: Fortran order, two axis-permuted views, reversed strided view) on members whose Geyer cut is not inside the margin; (iv) sanity bands on fixed iid / AR(1) members; (v) the `ess_from_chainstats` entry point (W, var+ from per-chain statistics with unbiased variances) on the small exhaustive shapes with >= 2 chains and on the family members, against the same formula evaluated in f64 from the statistics handed in. Compared quantity: tau = M*N/ESS against the f64 reference (direct O(n^2) autocovariance), set-valued where a pair sum is within 2e-5 of the cut. non-trivial = W>0; states = distinct inputs; transitions = implementation evaluations");
     let shapes = exhaustive_shapes(ctx.tier.thorough());
     let shapes: Vec<_> = shapes.into_iter().filter(|s| n_arrays(*s) <= ctx.tier.pick(1 << 16, 1 << 24)).collect();
     ctx.extra("exhaustive_shapes", json!(shapes.iter().map(|s| format!("{}x{}x{} ({} arrays)", s.0, s.1, s.2, n_arrays(*s))).collect::<Vec<_>>()));
@@ -230,6 +289,9 @@ pub fn run(ctx: &Ctx) {
                     if t.iter().any(|x| x.is_finite()) {
                         nt.push(h);
                     }
+                }
+                if total <= 65536 || ctx.tier.thorough() && total <= 1 << 20 {
+                    check_chainstats(ctx, &a, &json!({"chainstats": case.clone()}));
                 }
                 if total <= 4096 || ctx.tier.thorough() && total <= 65536 {
                     for l in 1..LAYOUT_NAMES.len() as u8 {
@@ -254,6 +316,9 @@ pub fn run(ctx: &Ctx) {
                 ctx.sample(json!({"family_member": sp.name(), "tau_impl": jfs(&t)}));
             }
         }
+        if sp.draws <= ctx.tier.pick(600, 5000) {
+            check_chainstats(ctx, &a, &json!({"chainstats": case.clone()}));
+        }
         if sp.draws <= 600 {
             metamorphic(ctx, &conv, &a, &case);
             // the same logical array in every other memory layout (Fortran order, permuted axes, reversed strided view):
@@ -276,6 +341,9 @@ pub fn run(ctx: &Ctx) {
     for v in conv.firsts.lock().unwrap()[which].iter() {
         ctx.violation(v.clone());
     }
+    if ctx.outcome_count("chainstats:value-match") + ctx.outcome_count("chainstats:value-mismatch") == 0 {
+        ctx.machinery_error("vacuity guard: the ess_from_chainstats layer decided nothing");
+    }
     if ctx.outcome_count("path:brute-force") == 0 || ctx.outcome_count("path:fft") == 0 {
         ctx.machinery_error("vacuity guard: both autocovariance paths must be exercised");
     }
@@ -284,6 +352,18 @@ pub fn run(ctx: &Ctx) {
 }
 
 pub fn check_case(ctx: &Ctx, case: &Value) {
+    if let Some(inner) = case.get("chainstats") {
+        let a = if let Some(e) = inner.get("exhaustive") {
+            let sh = &e["shape"];
+            decode((sh[0].as_u64().unwrap() as usize, sh[1].as_u64().unwrap() as usize, sh[2].as_u64().unwrap() as usize), e["index"].as_u64().unwrap())
+        } else if let Some(sp) = inner.get("family").and_then(FamSpec::from_json) {
+            sp.build()
+        } else {
+            return;
+        };
+        check_chainstats(ctx, &a, case);
+        return;
+    }
     let conv = Conv { fails: [AtomicU64::new(0), AtomicU64::new(0)], firsts: Mutex::new([vec![], vec![]]), worst: Mutex::new(0.0) };
     let a = if let Some(e) = case.get("exhaustive") {
         let sh = &e["shape"];
